@@ -22,6 +22,9 @@
 (*           -- written by the tool body itself just before it returns     *)
 (*   chunk   n (length of the list), items <<[i,id,role,content]>> the      *)
 (*           non-nil positions of one element of the output stream         *)
+(*   seen    who, out <<[id,role,content,nil]>>: the list a consumer of    *)
+(*           the node's output got (branch condition, successor node,      *)
+(*           callback handler; in stream form: its own concatenation)      *)
 (*   result  out <<[id,role,content,nil]>>  the returned list (stream      *)
 (*           form: the library's own concatenation of all chunks)          *)
 (*   error   errs <<[name,args]>> tool errors found in the error chain /   *)
@@ -50,6 +53,8 @@
 (*      only the panic of the tool of the FIRST call (run inline on the    *)
 (*      caller's goroutine) may reach the caller: not judged.  The process *)
 (*      never dies of a call;                                              *)
+(*   R6 every consumer of the node's output sees the list of R1, however    *)
+(*      many consumers concatenate the same streamed frames;               *)
 (*   R5 the call returns (with a list or an error): it never hangs.        *)
 (***************************************************************************)
 EXTENDS Naturals, Sequences, FiniteSets, TLC, Json
@@ -105,6 +110,15 @@ ResultRule(S, e) ==
   ELSE IF S.c.mode = "stream" /\ \E i \in 1..N : S.acc[i].s \notin OkOut(S, i) THEN Bad(S, "stream-chunks-do-not-concatenate-to-the-tool-output")
   ELSE [S EXCEPT !.term = "result"]
 
+\* R6: every consumer that concatenates the node's output (a branch condition, a successor, a callback handler ...) sees the list of R1
+SeenRule(S, e) ==
+  LET N == NC(S.c) IN
+  IF Len(e.out) # N THEN Bad(S, "consumer-saw-a-number-of-messages-that-differs-from-the-number-of-calls")
+  ELSE IF \E i \in 1..N : e.out[i].nil THEN Bad(S, "consumer-saw-no-message-for-a-call")
+  ELSE IF \E i \in 1..N : e.out[i].id # S.c.calls[i].id THEN Bad(S, "consumer-saw-ids-not-in-call-order")
+  ELSE IF \E i \in 1..N : e.out[i].content \notin OkOut(S, i) THEN Bad(S, "consumer-saw-content-that-is-not-the-output-of-the-called-tool")
+  ELSE S
+
 ErrorRule(S, e) ==
   IF S.term # "" THEN Bad(S, "second-outcome")
   ELSE IF ~Unhandled(S.c) /\ Failed(S) = {} /\ Panicked(S) = {} THEN Bad(S, "error-although-no-tool-failed")
@@ -130,6 +144,7 @@ Apply(S, e) ==
   ELSE CASE e.ev = "tend" -> [S EXCEPT !.inv = Append(@, [name |-> e.name, args |-> e.args, h |-> e.h, res |-> e.res, out |-> e.out])]
          [] e.ev = "chunk" -> ChunkRule(S, e)
          [] e.ev = "result" -> ResultRule(S, e)
+         [] e.ev = "seen" -> SeenRule(S, e)
          [] e.ev = "error" -> ErrorRule(S, e)
          [] e.ev = "escaped" -> EscapedRule(S, e)
          [] e.ev = "died" -> Bad(S, "process-died")    \* R4: whatever a tool does, the process survives the call
